@@ -24,7 +24,8 @@ Kinds    == {"triples", "quads", "graphs"}          \* physical type of the work
 (* ---- read side ---- *)
 REntries == {"flat", "flat-preread", "grouped", "to_graph", "plugin"}     \* plugin: Graph.parse(format="jelly") / GenericStatementSink.parse
 Sources  == {"bytesio", "bytesio-at-offset", "file", "file-at-offset", "buffered-random", "named-temporary-file", "spooled-temporary-file",
-             "duck-typed-seekable", "gzip", "pipe-full-reads", "pipe-1-1-1", "pipe-7-byte-reads", "buffered-over-pipe"}
+             "duck-typed-seekable", "gzip", "pipe-full-reads", "pipe-1-1-1", "pipe-7-byte-reads", "buffered-over-pipe",
+             "socket-makefile", "socket-makefile-unbuffered"}                    \* a socketpair: BufferedReader(16) over SocketIO, and the raw SocketIO
 Factories == {"default", "custom"}
 
 ReadLattice == {p \in [integ : Integs, kind : Kinds, delimited : BOOLEAN, entry : REntries, source : Sources, factory : Factories] :
